@@ -1,6 +1,7 @@
 import BfeVerif.Common.Proto
 import BfeVerif.C12.Model
 import BfeVerif.C12.Compose
+import BfeVerif.C11.Driver
 /-!
   C12 driver.
   op   = `b=<basic rules|none>;a=<adv rules|none>;h=<host>;p=<path|nil>;m=<method>`
@@ -31,6 +32,35 @@ def parseAdvClusters (s : String) : Option (List String) :=
   if s == "none" then none
   else if s == "" then some []
   else some ((s.splitOn "&").map fun r => match r.splitOn "!" with | [_, c] => c | _ => "?")
+
+/-- C12 ∘ C11: ops carrying `k=1` take the basic table's answer from the C11 MODEL (radix-contract model of the
+    tree built from the op's own basic rules) and judge the implementation against the C11 SPEC (documented
+    precedence); the implementation's `basic=` field is then only compared, not used.
+    result: (model basic, spec basic) or none when the op is not composed / the rules do not parse -/
+def composedBasic (f : List String) : Option (Basic × Basic) :=
+  if kv f "k" != some "1" then none else
+  match kv f "b", kv f "h", kv f "p" with
+  | some b, some h, some p =>
+    if b == "none" then some (none, none)
+    else match C11.parseRules b with
+      | none => none
+      | some rules =>
+        let T := C11.expand rules
+        let path := if p == "nil" then [] else p.toList
+        some (some (C11.lookupBasic (T.map C11.flat) h.toList path), some (C11.specLookupBasic T h.toList path))
+  | _, _, _ => none
+
+def renderBasic : Basic → String
+  | none => "notree"
+  | some none => "miss"
+  | some (some c) => "hit:" ++ c
+
+def basicLoadOk (f : List String) : Bool :=
+  match kv f "b" with
+  | some b => if b == "none" then true else match C11.parseRules b with
+    | some rules => C11.loadOk rules
+    | none => false
+  | none => false
 
 /-- condition in prefix notation, tokens separated by blanks:
     `& c c` | `| c c` | `~ c` | `t` | `p,<prim>,<hex a0>,<hex a1>,<0|1>` -/
@@ -70,7 +100,10 @@ def runE (f : List String) (cS : String) (impl : String) : Ans :=
   | some es, some h, some p, some m, [bitsF, basicF, resF] =>
     match parseBasic (basicF.drop 6).toString with
     | none => { model := "bad-impl", verdict := "skip" }
-    | some basic =>
+    | some basicImpl =>
+      let comp := composedBasic f
+      let basic := match comp with | some (m, _) => m | none => basicImpl
+      let basicSpec := match comp with | some (_, s) => s | none => basicImpl
       let req : C18.Req := { host := h.toUTF8.toList, path := p.toUTF8.toList, method := m.toUTF8.toList,
                              query := [], headers := [], cookies := [], tags := [], cip := none, vip := none }
       let o : C18.Orc :=
@@ -81,8 +114,8 @@ def runE (f : List String) (cS : String) (impl : String) : Ans :=
       | some bs =>
         let bitsS := if bs.isEmpty then "-" else String.mk (bs.map fun b => if b.cond then '1' else '0')
         let r := lookupCluster basic (some bs)
-        let spec := specLookupE o basic.join es req
-        let wf := wfB bs && (match basic.join with | some c => c != "" | none => true)
+        let spec := specLookupE o basicSpec.join es req
+        let wf := wfB bs && (match basicSpec.join with | some c => c != "" | none => true)
         let implOpt : Option (Option String) :=
           if resF.startsWith "ok cn=" then some (some (resF.drop 6).toString)
           else if resF == "err:nomatch cn=" || resF == "err:noproductrule cn=" then some none
@@ -90,20 +123,24 @@ def runE (f : List String) (cS : String) (impl : String) : Ans :=
         let verdict :=
           if !wf then "skip"
           else if bitsF != "bits=" ++ bitsS then "FAIL:e2e-condition-value"
+          else if comp.isSome && basicImpl != basicSpec then
+            (if basicImpl == some none then "FAIL:basic-missed-documented-rule" else "FAIL:basic-wrong-rule")
           else match implOpt with
             | none => "FAIL:unparsable"
             | some io => if io == spec then "ok" else "FAIL:e2e-destination"
         let nprim := (cS.splitOn "p,").length - 1
-        { model := "bits=" ++ bitsS ++ ";" ++ basicF ++ ";" ++ renderRes r
+        { model := "bits=" ++ bitsS ++ ";" ++ (if comp.isSome then "basic=" ++ renderBasic basic else basicF) ++ ";" ++ renderRes r
           verdict := verdict
-          tags := ["e2e"] ++ (if nprim ≥ 2 then ["e2e-multi-prim"] else [])
+          tags := ["e2e"] ++ (if comp.isSome then ["c11-composed", "fully-modelled"] else []) ++ (if nprim ≥ 2 then ["e2e-multi-prim"] else [])
                   ++ (if bs.any (·.cond) then ["e2e-match"] else ["e2e-nomatch"])
                   ++ (if bs.length ≥ 2 then ["nt"] else []) }
   | _, _, _, _, _ => { model := "bad-op", verdict := "skip" }
 
 def run (op impl : String) : Ans :=
-  if impl == "err:load" then { model := "err:load", verdict := "skip", tags := ["load-error"] } else
   let f := op.splitOn ";"
+  if impl == "err:load" then { model := "err:load", verdict := "skip", tags := ["load-error"] } else
+  if kv f "k" == some "1" && !basicLoadOk f then
+    { model := "err:load", verdict := "FAIL:loaded-invalid-basic-rules", tags := ["c11-composed"] } else
   if let some cS := kv f "c" then runE f cS impl else
   match kv f "a", impl.splitOn ";" with
   | some a, [bitsF, basicF, resF] =>
@@ -111,7 +148,10 @@ def run (op impl : String) : Ans :=
     let basicS := (basicF.drop 6).toString
     match parseBasic basicS with
     | none => { model := "bad-impl", verdict := "skip" }
-    | some basic =>
+    | some basicImpl =>
+      let comp := composedBasic f
+      let basic := match comp with | some (m, _) => m | none => basicImpl
+      let basicSpec := match comp with | some (_, s) => s | none => basicImpl
       let clusters := parseAdvClusters a
       let bits := if bitsS == "-" then [] else bitsS.toList.map (· == '1')
       let adv : Option (List Rule) := clusters.map fun cs => (bits.zip cs).map fun (b, c) => ⟨b, c⟩
@@ -119,8 +159,8 @@ def run (op impl : String) : Ans :=
       if !okShape then { model := "bad-bits", verdict := "FAIL:bits-shape" } else
       let r := lookupCluster basic adv
       let rules := adv.getD []
-      let spec := specLookup basic.join rules
-      let wf := wfB rules && (match basic.join with | some c => c != "" | none => true)
+      let spec := specLookup basicSpec.join rules
+      let wf := wfB rules && (match basicSpec.join with | some c => c != "" | none => true)
       -- the oracle judges the implementation's own third field
       let implOpt : Option (Option String) :=
         if resF.startsWith "ok cn=" then some (some (resF.drop 6).toString)
@@ -143,6 +183,8 @@ def run (op impl : String) : Ans :=
       let nt := (branch != "basic-hit" && rules.length ≥ 2) || (branch == "basic-hit" && rules.any (·.cond))
       let verdict :=
         if !wf then "skip"
+        else if comp.isSome && basicImpl != basicSpec then
+          (if basicImpl == some none then "FAIL:basic-missed-documented-rule" else "FAIL:basic-wrong-rule")
         else match implOpt with
           | none => "FAIL:unparsable"
           | some io =>
@@ -151,9 +193,9 @@ def run (op impl : String) : Ans :=
               | some _, none => "FAIL:" ++ branch ++ "-not-routed"
               | none, some _ => "FAIL:" ++ branch ++ "-routed-without-rule"
               | _, _ => "FAIL:" ++ branch ++ "-wrong-cluster"
-      { model := bitsF ++ ";" ++ basicF ++ ";" ++ renderRes r
+      { model := bitsF ++ ";" ++ (if comp.isSome then "basic=" ++ renderBasic basic else basicF) ++ ";" ++ renderRes r
         verdict := verdict
-        tags := [branch, advTag] ++ (if multi then ["multi-match"] else []) ++ (if !wf then ["empty-cluster"] else [])
+        tags := [branch, advTag] ++ (if comp.isSome then ["c11-composed"] else []) ++ (if multi then ["multi-match"] else []) ++ (if !wf then ["empty-cluster"] else [])
                 ++ (if nt then ["nt"] else []) }
   | _, _ => { model := "bad-op", verdict := "skip" }
 
